@@ -572,6 +572,18 @@ func Copy(x interface{}) interface{} {
 			acc[k] = Copy(v)
 		}
 		return acc
+	case []interface{}:
+		// What is below an array is as shared as what is below
+		// a map.
+		acc := make([]interface{}, len(vv))
+		for i, v := range vv {
+			acc[i] = Copy(v)
+		}
+		return acc
+	case []string:
+		acc := make([]string, len(vv))
+		copy(acc, vv)
+		return acc
 	default:
 		return x
 	}
